@@ -15,14 +15,17 @@ pub struct MemDevice {
     pub data: Vec<u8>,
     pub pos: u64,
     pub log: Vec<Call>,
+    /// 0 = accept whole buffers; k > 0 = every write call accepts at most k bytes (a legal short-writing sink)
+    pub max_write: usize,
 }
 impl MemDevice {
     pub fn new(initial: Vec<u8>, pos: u64) -> Self {
-        MemDevice { data: initial, pos, log: Vec::new() }
+        MemDevice { data: initial, pos, log: Vec::new(), max_write: 0 }
     }
 }
 impl Write for MemDevice {
     fn write(&mut self, buf: &[u8]) -> std::io::Result<usize> {
+        let buf = if self.max_write > 0 { &buf[..buf.len().min(self.max_write)] } else { buf };
         let off = self.pos as usize;
         if self.data.len() < off + buf.len() {
             self.data.resize(off + buf.len(), 0);
